@@ -520,9 +520,26 @@ pub fn c10_case(rep: &mut Report, seed: u64, verbose: bool) -> bool {
         let (fb, lb, fbf) = drive_b(&p, &sched, sp);
         rep.evaluations += 1;
         findings.extend(fbf.into_iter().map(|(a, t)| (format!("run-loop.{}", a), t)));
-        if lb != la || fb != fa {
-            let first = la.enters.iter().zip(lb.enters.iter()).position(|(x, y)| x != y);
-            findings.push(("run-loop.differs-from-stepping-loop".into(), format!("run(): {} entries, end '{}', {} boundaries; stepping loop: {} entries, end '{}', {} boundaries; first differing entry {:?}; final state equal: {}", lb.enters.len(), fb.end, fb.boundaries, la.enters.len(), fa.end, fa.boundaries, first, fb == fa)));
+        // the run loop is judged by the same rules on its own log (at which of the two ends of an
+        // iteration it accepts, and in which order it serves simultaneous requests, is its own choice,
+        // so its log need not equal the stepping loop's entry for entry)
+        if fb.end == "ok" {
+            let mut req: Vec<u8> = sched.values().flatten().copied().collect();
+            let mut ent: Vec<u8> = lb.enters.iter().map(|e| e.1).collect();
+            req.sort_unstable();
+            ent.sort_unstable();
+            if req != ent {
+                findings.push(("run-loop.not-exactly-once".into(), format!("{} requests {:?}, entries {:?}", nreq, req, ent)));
+            }
+            let seq: Vec<u8> = lb.enters.iter().map(|e| e.1).filter(|v| !(p.uses_trap && *v == 9)).collect();
+            if fb.log != seq || fb.count as usize != seq.len() {
+                findings.push(("run-loop.handler-log".into(), format!("guest handlers logged {:?} (count {}), monitor saw entries {:?}", fb.log, fb.count, seq)));
+            }
+            if fb.er != base.er || fb.ccr != base.ccr || fb.main_data != base.main_data {
+                findings.push(("run-loop.not-transparent".into(), format!("main program result differs from the request-free run: ER {:x?} vs {:x?}, CCR {:02x} vs {:02x}, data equal: {}", fb.er, base.er, fb.ccr, base.ccr, fb.main_data == base.main_data)));
+            }
+        } else if fa.end == "ok" {
+            findings.push(("run-loop.program-failed".into(), format!("with requests injected run() ended with '{}' (the stepping loop and the request-free run finish)", fb.end)));
         }
         let mut h = vec![];
         for (b, vs) in &sched {
